@@ -6,6 +6,7 @@ import (
 	"strconv"
 
 	"github.com/graphql-go/graphql/language/ast"
+	"github.com/graphql-go/graphql/language/printer"
 )
 
 // normalizeDocument walks the given operation in `doc`, replacing
@@ -365,6 +366,7 @@ type normCtx struct {
 	taken      map[string]bool // variable names the operation already defines
 	synthArgs  map[string]interface{}
 	newVarDefs []*ast.VariableDefinition
+	byLiteral  map[string]string // (type, printed literal) -> synthetic variable already standing for it
 }
 
 func (c *normCtx) nextName() string {
@@ -473,7 +475,17 @@ func (c *normCtx) tryExtract(value ast.Value, expected Input) (ast.Value, bool) 
 		// downstream error against the original literal.
 		return value, false
 	}
+	// The same literal at the same type gets the same synthetic variable, so that arguments that were
+	// identical in the request stay identical after rewriting ({ f(a: 3) f(a: 3) } must keep merging).
+	litKey := fmt.Sprintf("%v\x00%v", expected, printer.Print(value))
+	if prev, ok := c.byLiteral[litKey]; ok {
+		return ast.NewVariable(&ast.Variable{Name: ast.NewName(&ast.Name{Value: prev})}), true
+	}
 	name := c.nextName()
+	if c.byLiteral == nil {
+		c.byLiteral = map[string]string{}
+	}
+	c.byLiteral[litKey] = name
 	c.synthArgs[name] = literalToInput(value)
 	c.newVarDefs = append(c.newVarDefs, ast.NewVariableDefinition(&ast.VariableDefinition{
 		Variable: ast.NewVariable(&ast.Variable{Name: ast.NewName(&ast.Name{Value: name})}),
